@@ -105,3 +105,26 @@ Definition C06_monitored_run_nonvacuous := CX_monitor_inst.monitored_run_over_xm
 Definition C06_callback_order_across_threads := CX_monitor_inst.lgone_is_at_the_answer.
 Print Assumptions C06_monitored_run_nonvacuous.
 Print Assumptions C06_callback_order_across_threads.
+
+(* ---------------------------------------------------------------------------
+   The static tie to the text of the cache layer.  gen/SrcFacts.v is produced on
+   every run by a translator (harness/srcfacts/skeleton.go) from xsync_map.go and
+   xsync_mapof.go: per public method, how often a syntactic path can perform each
+   kind of primitive outside a closure run by the map, and how often such a closure
+   can invoke a user function.  proofs/Skel.v ties the model programs to it in both
+   directions; a change of the call structure of a method breaks these statements. *)
+From CacheV.proofs Require SkelDefs Skel.
+From CacheV.gen Require SrcFacts.
+From Coq Require String.
+
+(* the callback is invoked by the removers only, and never from a closure the map runs under a bucket lock
+   (the translator marks such a closure as untranslatable: TUnknown) *)
+Theorem C06_source_only_removers_fire :
+  (Skel.fires SrcFacts.budgets_map = Skel.remover_names /\ Skel.fires SrcFacts.budgets_mapof = Skel.remover_names)%type.
+Proof. exact Skel.only_removers_fire. Qed.
+Print Assumptions C06_source_only_removers_fire.
+
+Theorem C06_source_no_callback_under_lock :
+  (Skel.no_unknown SrcFacts.budgets_map = true /\ Skel.no_unknown SrcFacts.budgets_mapof = true)%type.
+Proof. exact Skel.source_fully_translated. Qed.
+Print Assumptions C06_source_no_callback_under_lock.
